@@ -7,6 +7,7 @@ every read the bytes written to the connection are parsed by the strict referenc
 scanner and a weakref/gc reachability test look for the socket; a canary request on a fresh connection shows that
 the loop is still running.  See DESIGN.md section 4, C14.
 """
+import copy
 import gc
 import random
 import re
@@ -41,7 +42,7 @@ REQUIRED = ['application_failed_on_a_dispatched_request', 'status_400', 'status_
             'exception_event_seen', 'disconnect_mid_message', 'disconnect_after_response', 'canary_answered', 'residue_scans',
             'weakref_checks', 'responses_parsed_by_reference', 'responses_crosschecked_http_client', 'reject_class_complete',
             'truncation_cases', 'multi_read_cases', 'ref_parser_selftest_checks', 'announced_close_followed_by_close', 'hostile_message_asked_with_HEAD',
-            'message_cut_inside_its_trailer_section', 'hostile_message_on_a_connection_that_served_a_request_before',
+            'another_connection_mid_request_while_the_hostile_message_arrives', 'message_cut_inside_its_trailer_section', 'hostile_message_on_a_connection_that_served_a_request_before',
             'served_request_was_followed_by_stray_bytes_in_its_read']
 REQUIRED_OBLIGATIONS = ['INCOMPLETE_MESSAGE_WAITS', 'LOOP_SURVIVES', 'ONE_VALID_RESPONSE_PER_READ', 'CLOSE_FOLLOWS_ANNOUNCEMENT', 'REJECTED_NOT_DISPATCHED',
                         'ERROR_STATUS_FOR_REJECTED', 'NO_STATE_AFTER_DISCONNECT', 'WELL_FORMED_DISPATCHED', 'EXCEPTION_ANSWERED_OR_CLOSED',
@@ -169,6 +170,12 @@ def observe(case):
     w.settle()
     s = E['FakeSock']()
     obs = {'steps': [], 'crash': None, 'closed': False, 'disconnected': False, 'delivered': 0}
+    # case option 'neighbour': the canary's connection is opened BEFORE the hostile message and has received the first half of its request
+    # when the hostile bytes arrive; it is completed afterwards.  Another connection's message in progress is none of the hostile one's business
+    c_early = None
+    if case.get('neighbour'):
+        c_early = E['FakeSock'](('10.9.9.9', 999))
+        _inject(w, E['read'](c_early, CANARY[:len(CANARY) // 2]))
     chunks = case['chunks']
     stop_after = case.get('disconnect_after')        # number of reads after which the peer disconnects (None: never)
     try:
@@ -202,11 +209,11 @@ def observe(case):
     except BaseException as e:  # noqa: BLE001  an exception escaping tick() is the crash the property forbids
         obs['crash'] = {'error': repr(e), 'tb': traceback.format_exc(limit=10)}
     # the loop keeps running: a canary on a fresh connection is dispatched and answered
-    c = E['FakeSock']()
+    c = c_early if c_early is not None else E['FakeSock']()
     try:
         m_seen = len(probe.seen)
         m_out = len(w.out)
-        _inject(w, E['read'](c, CANARY))
+        _inject(w, E['read'](c, CANARY if c_early is None else CANARY[len(CANARY) // 2:]))
         cw = b''.join(x[2] for x in w.out[m_out:] if x[0] == 'write' and x[1] is c)
         rs, err = ref_http.parse_responses(cw)
         obs['canary'] = bool(len(probe.seen) - m_seen == 1 and probe.seen[-1] == ('GET', '/canary') and err is None and len(rs) == 1
@@ -455,6 +462,8 @@ def evaluate(b, case):
         b.reached('hostile_message_asked_with_HEAD')
     if len(case['chunks']) > 1 and obs['delivered'] > 1:
         b.reached('multi_read_cases')
+    if case.get('neighbour'):
+        b.reached('another_connection_mid_request_while_the_hostile_message_arrives')
     if case.get('hostile_from') and obs['delivered'] > case['hostile_from']:
         b.reached('hostile_message_on_a_connection_that_served_a_request_before')
         if case.get('after_served_request'):
@@ -826,6 +835,8 @@ def corpus_cases():
                        ('target-odd', b'GET /../x HTTP/1.1\r\nHost: h\r\n\r\n'), ('host-port-invalid', b'GET / HTTP/1.1\r\nHost: h:abc\r\n\r\n'),
                        ('content-encoding-garbage', b'POST / HTTP/1.1\r\nHost: h\r\nContent-Encoding: gzip\r\nContent-Length: 5\r\n\r\nabcde')):
         cases.append(make_case('then-good-after-' + cls, 'any', b'', GOOD, chunks=[first, GOOD], then_good=1))
+    # every seventh case once more while another connection of the server is in the middle of a request of its own
+    cases += [dict(copy.deepcopy(c), neighbour=True) for c in cases[::7]]
     return cases
 
 
@@ -855,6 +866,8 @@ def gen_case(rng):
         tail = rng.choice([b'', b'\r\n', b'\r\n', b'\n', b'\r\n\r\n'])
         return make_case(cls, expect, data, orig, chunks=[rng.choice([GOOD, GOOD_POST]) + tail] + chunks, disconnect_after=disc + 1,
                          hostile_from=1, after_served_request=len(tail))
+    if rng.random() < 0.2:
+        extra['neighbour'] = True
     return make_case(cls, expect, data, orig if expect != 'accept' else data, chunks=chunks, disconnect_after=disc, **extra)
 
 
